@@ -1091,3 +1091,100 @@ func ruleIntrospectionSources(r *Run) {
 	}
 	r.AtLeast("R3b", "schema consumers on the request path", k, 5)
 }
+
+// ruleEnumTables (R11f): a table (map or slice literal) of constants of one of gqlparser's
+// closed enumerations that lists most of them lists all of them. An allow-list of directive
+// locations that forgets one silently strips that location from every reconstructed directive.
+func ruleEnumTables(r *Run) {
+	const rule = "R11f"
+	const astPath = "github.com/vektah/gqlparser/v2/ast"
+	enums := map[*types.Named][]*types.Const{}
+	var astPkg *types.Package
+	for _, p := range r.P.Pkgs {
+		if ip := p.Imports[astPath]; ip != nil && ip.Types != nil {
+			astPkg = ip.Types
+			break
+		}
+	}
+	if astPkg == nil {
+		r.Bad(rule, "", "gqlparser ast package", "-", "type information of "+astPath+" not found")
+		return
+	}
+	sc := astPkg.Scope()
+	for _, name := range sc.Names() {
+		c, ok := sc.Lookup(name).(*types.Const)
+		if !ok {
+			continue
+		}
+		if nt, ok := c.Type().(*types.Named); ok && nt.Obj().Pkg() == astPkg {
+			enums[nt] = append(enums[nt], c)
+		}
+	}
+	nEnums, nTables := 0, 0
+	for nt, cs := range enums {
+		if len(cs) >= 3 {
+			nEnums++
+		}
+		_ = nt
+	}
+	for _, p := range r.P.Pkgs {
+		for _, f := range p.Syntax {
+			ast.Inspect(f, func(nd ast.Node) bool {
+				cl, ok := nd.(*ast.CompositeLit)
+				if !ok || len(cl.Elts) < 3 {
+					return true
+				}
+				// constants of one enumeration among the elements / keys
+				seen := map[*types.Named]map[string]bool{}
+				for _, e := range cl.Elts {
+					ex := e
+					if kv, isKV := e.(*ast.KeyValueExpr); isKV {
+						ex = kv.Key
+					}
+					var obj types.Object
+					switch x := ex.(type) {
+					case *ast.SelectorExpr:
+						obj = p.TypesInfo.Uses[x.Sel]
+					case *ast.Ident:
+						obj = p.TypesInfo.Uses[x]
+					}
+					c, isConst := obj.(*types.Const)
+					if !isConst {
+						continue
+					}
+					nt, isNamed := c.Type().(*types.Named)
+					if !isNamed || enums[nt] == nil {
+						continue
+					}
+					if seen[nt] == nil {
+						seen[nt] = map[string]bool{}
+					}
+					seen[nt][c.Name()] = true
+				}
+				for nt, have := range seen {
+					all := enums[nt]
+					if len(all) < 3 || len(have)*4 < len(all)*3 {
+						continue // a deliberate subset
+					}
+					nTables++
+					var missing []string
+					for _, c := range all {
+						if !have[c.Name()] {
+							missing = append(missing, c.Name())
+						}
+					}
+					sort.Strings(missing)
+					fname := "package " + shortPkg(p.PkgPath)
+					r.Check(len(missing) == 0, rule, fname, "table of "+nt.Obj().Name()+" constants", r.P.pos(cl.Pos()),
+						fmt.Sprintf("lists all %d constants of the enumeration", len(all)),
+						fmt.Sprintf("a table lists %d of the %d %s constants of gqlparser but not %s: whatever the table admits, the missing ones are silently dropped or refused", len(have), len(all), nt.Obj().Name(), strings.Join(missing, ", ")))
+				}
+				return true
+			})
+		}
+	}
+	if nTables == 0 {
+		r.OK(rule, "", "no near-complete enumeration tables", "-", fmt.Sprintf("no composite literal in the module lists three quarters or more of a gqlparser enumeration (%d enumerations known): nothing to compare", nEnums))
+	}
+	r.AtLeast(rule, "gqlparser enumerations known", nEnums, 3)
+}
